@@ -69,6 +69,7 @@ inline std::istream& operator>>(std::istream &in, type &s)
 {
     std::string val;
     in >> val;
+    amgcl::detail::reject_trailing_text(in, val);
 
     if (val == "aggregation")
         s = aggregation;
